@@ -557,7 +557,8 @@ func SplitSign(args []string) {
 // transport replay
 
 type logRec struct {
-	Accept string `json:"accept"`
+	RespEnc string `json:"respEnc"`
+	Accept  string `json:"accept"`
 	Enc    string `json:"enc"`
 	Body   string `json:"body"`
 	Base   int    `json:"base"`
@@ -582,6 +583,7 @@ type attempt struct {
 	Len     int64  `json:"len"`
 	Drained int64  `json:"drained"`
 	Err     string `json:"err,omitempty"`
+	RespCE  string `json:"respCE"`
 	T0, T1  int64 // arrival / end of drain, µs since process start (debug)
 }
 
@@ -707,7 +709,9 @@ func (f *front) ServeHTTP(w http.ResponseWriter, req *http.Request) {
 		r2.RequestURI = "/sign?" + req.URL.RawQuery
 		r2.Header.Set("X-Forwarded-For", "198.51.100.7")
 		r2.Header.Set("Ssl-Client-Cert", url.PathEscape(f.e.client.PEM()))
-		f.real.ServeHTTP(w, r2)
+		cw := &ceWriter{ResponseWriter: w}
+		f.real.ServeHTTP(cw, r2)
+		set(func(a *attempt) { a.RespCE = cw.ce })
 	case "s503":
 		http.Error(w, "unavailable", http.StatusServiceUnavailable)
 	case "s406":
@@ -717,6 +721,27 @@ func (f *front) ServeHTTP(w http.ResponseWriter, req *http.Request) {
 	default:
 		http.Error(w, "script error "+resp, 599)
 	}
+}
+
+// ceWriter notes the Content-Encoding the real handler chose for its response
+type ceWriter struct {
+	http.ResponseWriter
+	ce   string
+	seen bool
+}
+
+func (c *ceWriter) WriteHeader(status int) {
+	if !c.seen {
+		c.ce, c.seen = c.Header().Get("Content-Encoding"), true
+	}
+	c.ResponseWriter.WriteHeader(status)
+}
+
+func (c *ceWriter) Write(b []byte) (int, error) {
+	if !c.seen {
+		c.ce, c.seen = c.Header().Get("Content-Encoding"), true
+	}
+	return c.ResponseWriter.Write(b)
 }
 
 func keyPEM(c *certs.Cert) string {
@@ -906,6 +931,12 @@ func Replay(args []string) {
 			bad = true
 		} else {
 			for k := range got {
+				if got[k].Resp == "ok" && got[k].Err == "" && got[k].RespCE != ceOf[want[k].RespEnc] {
+					key["kind"] = "response-encoding-differs"
+					r.Fail(key, rep, "%s: the server answered request %d (Accept-Encoding %q) with Content-Encoding %q; the specification has %q", tn, k+1, got[k].AE, got[k].RespCE, ceOf[want[k].RespEnc])
+					bad = true
+					break
+				}
 				if got[k].Base != want[k].Base || got[k].CE != ceOf[want[k].Enc] || got[k].AE != aeOf[want[k].Accept] {
 					key["kind"] = "attempts-differ"
 					r.Fail(key, rep, "%s: request %d went to server %d with Content-Encoding %q Accept-Encoding %q; the specification sends it to server %d with %q / %q (script %v)", tn, k+1, got[k].Base, got[k].CE, got[k].AE, want[k].Base, ceOf[want[k].Enc], aeOf[want[k].Accept], script)
